@@ -23,24 +23,24 @@ MANIFEST = {
              "repeats, jumps backwards) the TimestampFormatter/StringFromTime cache machine renders exactly strftime of the broken-down "
              "instant with %Qms/%Qus/%Qns replaced by the zero-padded fraction, in GMT mode unconditionally and in local-time mode for "
              "every zone whose offset data is constant on the recalculation windows the code uses (decidable premise, checked against "
-             "the tz database on every run); that %X and two different fractional specifiers are rejected; with proved counter-witnesses "
-             "for the accepted-but-stale conversions (F8), for a literal %% before r R T X Q, for a repeated fractional specifier and for a "
-             "zone transition off the quarter-hour grid. Tied to the code by extracting the modifier / patch / rewrite / rejection tables, "
+             "the tz database on every run); that %X, two different and (after the F21 repair) repeated fractional specifiers are rejected; with proved counter-witnesses "
+             "for the accepted-but-stale conversions (F8), for a literal %% before r R T X Q (F20), for the unrepaired constructor accepting a "
+             "repeated fractional specifier (F21, fixed) and for a zone transition off the quarter-hour grid (F22). Tied to the code by extracting the modifier / patch / rewrite / rejection tables, "
              "recalculation constants, conditions and fraction widths from the headers and re-proving they equal the model's, and by "
              "running the real formatter, the Lean model and libc on the same generated cases.",
         note="strftime/localtime_r/gmtime_r and the tz database are the reference, modelled for the C locale without glibc flag/width "
              "extensions; %s only for ten-digit epochs; local-time theorem carries the zone premise explicitly.",
-        ref="§5 C13, §7 F8"),
+        ref="§5 C13, §7 F8 F20 F21 F22"),
 }
 
 THEOREMS = ["Time.C13_gmt", "Time.C13_local", "Time.C13_rejects", "Time.C13_frac_writer", "Time.C13_patch_fields",
             "Time.C13_recalc_points", "Time.C13_civil_roundtrip", "Time.C13_F8_stale", "Time.C13_pctpct_miswritten",
-            "Time.C13_dupfrac_accepted", "Time.C13_offgrid_transition_stale",
+            "Time.C13_dupfrac_unrepaired_accepted", "Time.C13_offgrid_transition_stale",
             "Obligations.time_extraction_complete", "Obligations.time_modifiers", "Obligations.time_patch_table",
             "Obligations.time_patch_args", "Obligations.time_rewrites", "Obligations.time_rejected",
             "Obligations.time_noon_midnight", "Obligations.time_hms", "Obligations.time_cached_seconds",
             "Obligations.time_conditions", "Obligations.time_frac_table", "Obligations.time_frac_ctor",
-            "Obligations.time_strftime_buffer", "Obligations.time_local_period", "Obligations.model_tables_coherent",
+            "Obligations.time_strftime_buffer", "Obligations.time_local_period", "Obligations.time_rejects_repeated", "Obligations.C13_rejects_extracted", "Obligations.model_tables_coherent",
             "Obligations.model_patch_text", "Obligations.C13_extracted",
             "Time.SFT.step_spec", "Time.TF.step_spec", "Time.TF.init_spec", "Time.charsOf_lex", "Time.lex_charsOf"]
 MODULES = ["QuillModel.Props.C13"]
@@ -50,13 +50,16 @@ QUICK_ZONES = ["UTC", "Europe/London", "America/New_York", "Asia/Kolkata", "Asia
                "Pacific/Chatham", "America/St_Johns"]
 ZONEINFO = "/usr/share/zoneinfo"
 
-# input classes of the findings (DESIGN §7 F8; F16..F18 found by this check) — keyed so that anything else still alarms
+# input classes of the findings (F8: DESIGN §7; F20, F21, F22 found by this check) — keyed so that anything else still alarms.
+# status: known_findings.json decides when it lists the id; otherwise the default below (F21 was repaired by a fix: commit).
 FINDINGS = {
     "F8": "accepted but rendered stale: pattern uses one of %c %Ec %EX %OH %OI %OM %OS (time-of-day conversions the cache neither patches, rewrites nor rejects)",
-    "F16": "a literal %% directly before r R T X or Q?s is read as a conversion by the substring searches (rewritten / rejected / fraction inserted)",
-    "F17": "the same fractional specifier twice (e.g. %Qms…%Qms) is accepted; the second one is printed literally",
-    "F18": "local time: a zone transition that is not on the recalculation grid (e.g. America/St_Johns 2001-2011, 00:01 local) leaves offset and hour stale until the next quarter hour",
+    "F20": "a literal %% directly before r R T X or Q?s is read as a conversion by the substring searches (rewritten / rejected / fraction inserted)",
+    "F21": "the same fractional specifier twice (e.g. %Qms…%Qms) is accepted; the second one is printed literally",
+    "F22": "local time: zone whose offset changes inside a recalculation window (transition off the quarter-hour grid, e.g. America/St_Johns 2001-2011 at 00:01 local): hour, %z and %Z stay stale until the next recalculation point",
 }
+DEFAULT_STATUS = {"F8": "known", "F20": "known", "F21": "fixed", "F22": "known"}
+ORDER = ("F8", "F20", "F21", "F22")  # pattern classes first
 
 
 def all_zones():
@@ -118,15 +121,15 @@ def classes_of(pattern):
             out.add("F8")
     for a, b in zip(t, t[1:]):
         if a[0] == "pct" and b[0] == "lit" and b[1] in "rRTXQ":
-            out.add("F16")
+            out.add("F20")
     fr = [v for k, v in t if k == "frac"]
     if len(fr) >= 2 and len(set(fr)) == 1:
-        out.add("F17")
+        out.add("F21")
     return out
 
 
 def finding_status(fid):
-    """'fixed' suppresses nothing; 'known' or not yet listed (candidate reported by this check) → KNOWN-FINDING"""
+    """'fixed' suppresses nothing; 'known' → KNOWN-FINDING. known_findings.json wins over the default table."""
     import json
     p = os.path.join(vlib.VERIF, "known_findings.json")
     try:
@@ -135,7 +138,7 @@ def finding_status(fid):
                 return f.get("status", "known")
     except Exception:
         pass
-    return "candidate"
+    return DEFAULT_STATUS.get(fid, "fixed")
 
 
 def split_cases(text):
@@ -189,6 +192,7 @@ def run(prop, tier):
         ck.log("PROOF SIDE BROKEN: " + b)
     if P <= 0:
         P = 900  # the extraction failure is already recorded in ps["broken"]; keep the correspondence running
+    RR = "1" if ex.get("time", {}).get("rejectsRepeatedSpecifier") else "0"
     env = dict(vlib.ASAN_ENV)
     env["H3_PERIOD"] = str(P)
 
@@ -224,7 +228,7 @@ def run(prop, tier):
         for z in zones:
             zone_lines[z.split()[1]] = z
         stats_lines.extend(label + ": " + s for s in stats)
-        rc, dout = vlib.driver(["time", "trace", str(P)], stdin_data=text.encode())
+        rc, dout = vlib.driver(["time", "trace", str(P), RR], stdin_data=text.encode())
         done = False
         for ln in dout.split("\n"):
             if ln.startswith("TRACE "):
@@ -304,15 +308,15 @@ def run(prop, tier):
         cls = set(classes_of(pat))
         cause = re.search(r"cause=(\S+)", ln)
         if cause and cause.group(1) != "-":
-            cls.add("F18")
+            cls.add("F22")
         # a finding class only explains the kind of failure it produces
         if "accepted-should-reject" in ln:
-            cls &= {"F17"}
+            cls &= {"F21"}
         elif "rejected-should-accept" in ln:
-            cls &= {"F16"}
+            cls &= {"F20"}
         else:
-            cls &= {"F8", "F16", "F18"}
-        live = [c for c in ("F8", "F16", "F17", "F18") if c in cls and finding_status(c) != "fixed"]  # pattern classes first
+            cls &= {"F8", "F20", "F22"}
+        live = [c for c in ORDER if c in cls and finding_status(c) != "fixed"]
         if live:
             known_seen.setdefault(live[0], []).append((label, ln, clines))
         else:
@@ -320,9 +324,8 @@ def run(prop, tier):
 
     for fid in sorted(known_seen):
         label, ln, clines = known_seen[fid][0]
-        ck.known("%s (%s, %s) %s — %d oracle failures of this class in this run, e.g. %s" % (
-            fid, finding_status(fid), "DESIGN §7" if fid == "F8" else "found by this check", FINDINGS[fid], len(known_seen[fid]),
-            ln[:260]))
+        ck.known("%s %s — %d oracle failures of this class in this run, e.g. %s" % (
+            fid, FINDINGS[fid], len(known_seen[fid]), ln[:260]))
 
     def shrink(clines, ln):
         """smallest tail of the instants (ending at the failing one) that still makes the oracle fire"""
@@ -375,7 +378,7 @@ def run(prop, tier):
 
     # zone premise summary
     bad_zones = sorted(z for z, ln in zone_lines.items() if "premise=0" in ln)
-    if bad_zones and "F18" not in known_seen and finding_status("F18") != "fixed" and not ck.violations:
+    if bad_zones and "F22" not in known_seen and not ck.violations:
         ck.violation("zone_premise", "zones violating the premise of C13_local (recalculation period %d):\n%s\n" % (P, "\n".join(zone_lines[z] for z in bad_zones)),
                      "the zone premise of the local-time theorem fails for %s and no failing input was found there" % ", ".join(bad_zones[:5]), no_input=True)
 
@@ -418,7 +421,7 @@ def replay(prop, path):
     env["H3_PERIOD"] = str(P)
     rc, out = vlib.sh([hbin, "replay", path], env=env)
     print(out)
-    rc2, dout = vlib.driver(["time", "trace", str(P)], stdin_data=out.encode())
+    rc2, dout = vlib.driver(["time", "trace", str(P), "1" if ex.get("time", {}).get("rejectsRepeatedSpecifier") else "0"], stdin_data=out.encode())
     print(dout)
     bad = [l for l in out.split("\n") if l.startswith("ORACLE")]
     return 1 if bad or rc not in (0, 3) or rc2 != 0 else 0
